@@ -1843,6 +1843,7 @@ package exec
 //@   hint execRecover#1 context.root == root && context.contextPosition == 0 && context.contextSize == 1                         @document-root-position-1-size-1
 //@   hint execRecover#1 aeq(absv(context.result), ASet(qsingle(cursor)))                                                      @starts-from-the-given-node
 //@   ensures err == nil ==> r != nil                                          @never-nil-nil
+//@   ensures err == nil ==> resok(r) && wf(r)                                 @a-well-formed-value
 //@   ensures err != nil ==> r == nil
 //@   loop 0
 //@     invariant 0 - 1 <= #k && #k < len(settings) || (len(settings) == 0 && #k == 0 - 1)
@@ -2343,23 +2344,50 @@ package exec
 
 //@ func unmarshalStruct(result, val, settings) (err)
 //@   property C19 C15
-//@   trusted
-//@   uses reflectspec
+//@   uses reflectspec sem
 //@   requires rvValid(val) && rvKind(val) == 22 && !rvNil(val) && rtKind(rtElem(rvType(val))) == 25
+//@   requires (isVSet(result) ==> nodes(vset(result))) && (forall k Int :: 0 <= k && k < len(settings) ==> settings[k] != nil)
+//@   loop 0
+//@     invariant 0 <= i && i <= numField
+//@     decreases numField - i
+//@   loop 1
+//@     invariant fieldType != nil && 0 <= i && i < numField
+//@     decreases rtDepth(fieldType)
 
 //@ func unmarshalSlice(result, val, settings) (err)
 //@   property C19 C15
-//@   trusted
-//@   uses reflectspec
+//@   uses reflectspec nodeset
 //@   requires rvValid(val) && rvKind(val) == 23 && !rvRO(val)
+//@   requires (isVSet(result) ==> nodes(vset(result))) && (forall k Int :: 0 <= k && k < len(settings) ==> settings[k] != nil)
+//@   loop 0
+//@     invariant sliceElement != nil && sliceElementKind == rtKind(sliceElement)
+//@     decreases rtDepth(sliceElement)
+//@   loop 1
+//@     invariant 0 - 1 <= #k && #k < len(nodeset) || (len(nodeset) == 0 && #k == 0 - 1)
+//@     decreases len(nodeset) - #k
 
 //@ func unmarshal(result, value, settings) (err)
 //@   property C19 C15
-//@   uses reflectspec
+//@   uses reflectspec nodeset
+//@   requires (isVSet(result) ==> nodes(vset(result))) && (forall k Int :: 0 <= k && k < len(settings) ==> settings[k] != nil)
 //@   loop 0
 //@     invariant rvValid(val) && typ != nil && rvType(val) == typ && !rvRO(val)
 //@     decreases rtDepth(typ)
 
 //@ func Unmarshal(result, value, settings) (err)
 //@   property C19 C15
+//@   uses reflectspec nodeset
+//@   requires (isVSet(result) ==> nodes(vset(result))) && (forall k Int :: 0 <= k && k < len(settings) ==> settings[k] != nil)
+
+//@ func createValue(kind, result) (r, ok)
+//@   property C19 C15
+//@   trusted
 //@   uses reflectspec
+//@   requires result != nil
+//@   ensures ok ==> rvValid(r) && !rvRO(r)
+
+//@ func setField(name, field, val, checkSlice) (err)
+//@   property C19 C15
+//@   trusted
+//@   uses reflectspec
+//@   requires rvValid(field) && rvValid(val) && !rvRO(val)
